@@ -23,6 +23,8 @@ var kindSrcs = map[string]kindSrc{
 	"ufloatNonDyadic": {src: "const UfloatNonDyadic = 0.1\n"},
 	"urune":           {src: "const Urune = 'x'\n"},
 	"ustring":         {src: "const Ustring = \"a\\\"b\\\\c\\td\"\n"},
+	"ustringLong":     {src: "const UstringLong = \"the quick brown fox jumps over the lazy dog, then does it again, and again, until \\\"more than\\\" seventy-two characters are used\"\n"},
+	"ufloatTiny":      {src: "const UfloatTiny = 1.0 / (1 << 100)\n"},
 	"ubool":           {src: "const Ubool = true\n"},
 	"ucomplex":        {src: "const Ucomplex = 1 + 2i\n"},
 	"typedConst": {src: `type MyStr string
